@@ -47,6 +47,13 @@ Definition is_ws (c : N) : bool := (c =? 32) || ((9 <=? c) && (c <=? 13)) || ((2
 (* str.strip() == '' for the strings Out ever tests: all characters white space *)
 Definition all_ws (s : str) : bool := forallb is_ws s.
 Definition ends_with_space (s : str) : bool := match rev s with c :: _ => c =? 32 | [] => false end.
+(* val.endswith(' ') and not val.endswith('\\ '): an escaped space at the end of a name is no S *)
+Definition ends_with_plain_space (s : str) : bool :=
+  match rev s with
+  | c :: b :: _ => (c =? 32) && negb (b =? 92)
+  | [c] => c =? 32
+  | [] => false
+  end.
 
 (* text.split(sep) for a non-empty sep *)
 Fixpoint split_go (fuel : nat) (sep s cur : str) : list str :=
@@ -137,7 +144,7 @@ Definition append (p : prefs) (level : nat) (out : list str)
     let out2 :=
       if indent || (str_eqb v [125] && p_indentClosingBrace p)
       then out1 ++ [indentblock p v (level + 1)]
-      else (if ends_with_space v then remove_last_if_S out1 else out1) ++ [v] in
+      else (if ends_with_plain_space v then remove_last_if_S out1 else out1) ++ [v] in
     (* POST *)
     if alwaysS && one_of v c_calc then out2 ++ [[32]]
     else if one_of v c_comb then insert_before_last out2 (p_selectorCombinatorSpacer p) ++ [p_selectorCombinatorSpacer p]
